@@ -160,7 +160,8 @@ MANIFEST_TEXT = {
         text="the ordered trace of container writes/reads and action calls of every single update (logging containers) is attributed "
              "to task executions and checked against the model's trigger set: exactly once each, producers first, nothing else, "
              "initial write first; cyclic public graphs: at most once and termination under a CPU stall guard. Schedules come from "
-             "hash seed x name salt x build; evidence counts distinct (graph, order) pairs",
+             "hash seed x name salt x build; evidence counts distinct (graph, order) pairs. An assignment made through a reference-valued "
+             "subscript also runs the readers of the subscript: known finding KF-3, reported, not hidden",
         design_ref="DESIGN.md 5 (C02)", note=_TB,
         technique="deterministic simulation: per-update execution traces under seeded schedules"),
     "C03": dict(
